@@ -105,7 +105,7 @@ off_t lseek(int fd, off_t off, int whence) {
 }
 off64_t lseek64(int fd, off64_t off, int whence) { return lseek(fd, off, whence); }
 int close(int fd) {
-    if (!simfd(fd) || t_in_sim || fd <= 2) return (int)rawret(RAW(SYS_close, fd, 0, 0, 0, 0, 0));
+    if (!simfd(fd) || t_in_sim) return (int)rawret(RAW(SYS_close, fd, 0, 0, 0, 0, 0));   // descriptors 0-2 of library code are simulated ones too
     SimScope s; int r = k_close(fd); if (r < 0) { errno = -r; return -1; } return 0;
 }
 int fsync(int fd) {
@@ -177,7 +177,7 @@ int fstat(int fd, struct stat *st) {
 int isatty(int fd) {
     if (!sim_active()) return REAL(isatty)(fd);
     SimScope s; sim_step(); sim_event("isatty").a = fd;
-    if (fd == 0) { if (G.w.tty_state == 2) return 1; errno = G.w.tty_state == 1 ? EBADF : ENOTTY; return 0; }
+    if (fd == 0) { if (G.w.tty_state == 2) return 1; errno = (G.w.tty_state == 1 && !G.fds.count(0)) ? EBADF : ENOTTY; return 0; }
     if (fd == 1 || fd == 2) { if (G.w.stdout_kind == 0) return 1; errno = ENOTTY; return 0; }
     errno = ENOTTY; return 0;
 }
@@ -417,7 +417,7 @@ static int sim_ttyname_r(int fd, char *buf, size_t len) {
     int r = 0;
     if (fd != 0) r = (fd == 1 || fd == 2) ? ENOTTY : EBADF;
     else if (G.w.tty_state == 0) r = ENOTTY;
-    else if (G.w.tty_state == 1) r = EBADF;
+    else if (G.w.tty_state == 1) r = G.fds.count(0) ? ENOTTY : EBADF;   // descriptor 0 may meanwhile be a file the library itself opened
     else if (len < G.w.tty_path.size() + 1) r = ERANGE;
     else sut_write(buf, G.w.tty_path.c_str(), G.w.tty_path.size() + 1);
     e.ret = r;
@@ -539,6 +539,19 @@ int pthread_mutex_lock(pthread_mutex_t *m) { if (!sim_active()) return __compat_
 int pthread_mutex_unlock(pthread_mutex_t *m) { if (!sim_active()) return __compat_mutex_unlock(m); SimScope s; return sched_mutex_unlock(m); }
 int pthread_mutex_trylock(pthread_mutex_t *m) { if (!sim_active()) return __compat_mutex_trylock(m); SimScope s; return sched_mutex_trylock(m); }
 int pthread_mutex_init(pthread_mutex_t *m, const pthread_mutexattr_t *a) { if (!sim_active()) return __compat_mutex_init(m, a); SimScope s; sim_step(); return sched_mutex_init(m, a); }
+// read-write and spin locks: decided by the scheduler too (a real lock held by a parked thread would hang the harness)
+int pthread_rwlock_init(pthread_rwlock_t *l, const pthread_rwlockattr_t *a) { if (!sim_active()) return REAL(pthread_rwlock_init)(l, a); SimScope s; sim_step(); return sched_rw_init(l, sizeof *l); }
+int pthread_rwlock_rdlock(pthread_rwlock_t *l) { if (!sim_active()) return REAL(pthread_rwlock_rdlock)(l); SimScope s; return sched_rw_lock(l, false, false); }
+int pthread_rwlock_wrlock(pthread_rwlock_t *l) { if (!sim_active()) return REAL(pthread_rwlock_wrlock)(l); SimScope s; return sched_rw_lock(l, true, false); }
+int pthread_rwlock_tryrdlock(pthread_rwlock_t *l) { if (!sim_active()) return REAL(pthread_rwlock_tryrdlock)(l); SimScope s; return sched_rw_lock(l, false, true); }
+int pthread_rwlock_trywrlock(pthread_rwlock_t *l) { if (!sim_active()) return REAL(pthread_rwlock_trywrlock)(l); SimScope s; return sched_rw_lock(l, true, true); }
+int pthread_rwlock_unlock(pthread_rwlock_t *l) { if (!sim_active()) return REAL(pthread_rwlock_unlock)(l); SimScope s; return sched_rw_unlock(l); }
+int pthread_rwlock_destroy(pthread_rwlock_t *l) { if (!sim_active()) return REAL(pthread_rwlock_destroy)(l); return 0; }
+int pthread_spin_init(pthread_spinlock_t *l, int sh) { if (!sim_active()) return REAL(pthread_spin_init)(l, sh); SimScope s; sim_step(); *l = 0; return 0; }
+int pthread_spin_lock(pthread_spinlock_t *l) { if (!sim_active()) return REAL(pthread_spin_lock)(l); SimScope s; return sched_rw_lock((void *)((uintptr_t)l | 1), true, false); }
+int pthread_spin_trylock(pthread_spinlock_t *l) { if (!sim_active()) return REAL(pthread_spin_trylock)(l); SimScope s; return sched_rw_lock((void *)((uintptr_t)l | 1), true, true); }
+int pthread_spin_unlock(pthread_spinlock_t *l) { if (!sim_active()) return REAL(pthread_spin_unlock)(l); SimScope s; return sched_rw_unlock((void *)((uintptr_t)l | 1)); }
+int pthread_spin_destroy(pthread_spinlock_t *l) { if (!sim_active()) return REAL(pthread_spin_destroy)(l); return 0; }
 int pthread_once(pthread_once_t *o, void (*fn)(void)) {
     if (!sim_active()) return __compat_once(o, fn);
     // the initialiser is library code: it runs with the simulator scope released
